@@ -457,6 +457,8 @@ fn depth_of(st: &StateRegistry<'static>, target: &StateRegistry<'static>) -> Opt
 pub fn apply_real(op: &Op, st: &mut St) -> Ret {
     let val = |v: u32| Ret::Val(v as u64);
     match op {
+        // a pass counter the caller (or an earlier run) left in the state
+        Op::Insert(t, v) if *t == TAG_IT => Ret::Opt(st.insert(mahf::state::common::Iterations(*v)).map(|o| o.0 as u64)),
         Op::Insert(t, v) => with_ty!(*t, T => Ret::Opt(st.insert(<T as Probe>::mk(*v)).map(|o| o.val() as u64))),
         Op::Remove(t) => with_ty!(*t, T => match st.remove::<T>() {
             Ok(x) => val(x.val()),
